@@ -15,6 +15,10 @@ package main
 // run the body of a range loop, or leave the clause are kept, under the if/for/switch structure
 // they are in. The abstract execution of these trees is in Model/CaseBuf.lean.
 //
+// `recoverHandler` is what the deferred function of runRecoverable does to the buffer when a panic
+// leaves run (the shape of runRecoverable is pinned: one deferred literal, `if panicking { msg :=
+// recover(); … }`, the flag set before and cleared after the run).
+//
 // `casesWriters` lists every place of the package where vm.cases is assigned (function / clause):
 // nothing else may touch the buffer.
 //
@@ -287,6 +291,7 @@ inductive Cond where
   | casesNil                           -- vm.cases == nil: a nil buffer has no cases
   | doneNil
   | doneNilOr (rest : String)
+  | panicking                          -- runRecoverable's deferred function: a panic is leaving run
   | other (text : String)
 deriving Repr
 
@@ -398,6 +403,51 @@ func genCaseBuf(repo string) (string, error) {
 	regions = append(regions, region{name: "run/OpRange/reflect.Chan", lean: "opRangeChan", lo: chanClause.Pos(), hi: chanClause.End(), body: chanClause.Body})
 	regions = append(regions, region{name: "Reset", lean: "vmReset", lo: reset.Pos(), hi: reset.End(), body: reset.Body.List})
 
+	// runRecoverable: `panicking := true; defer func() { if panicking { msg := recover(); … } }();
+	// …; panicking = false; return nil` — the body of `if panicking` is what runs when a panic
+	// (raised inside reflect.Select, too: send on a closed channel) leaves run
+	rr := method("run.go", "runRecoverable")
+	if rr == nil {
+		return "", fmt.Errorf("shape not recognised: (*VM).runRecoverable not found")
+	}
+	var handler *ast.FuncLit
+	defers, flagWrites := 0, 0
+	ast.Inspect(rr.Body, func(n ast.Node) bool {
+		switch x := n.(type) {
+		case *ast.DeferStmt:
+			defers++
+		case *ast.AssignStmt:
+			for _, l := range x.Lhs {
+				if swText(fset, l) == "panicking" {
+					flagWrites++
+				}
+			}
+		case *ast.UnaryExpr:
+			if x.Op == token.AND && swText(fset, x.X) == "panicking" {
+				flagWrites += 10
+			}
+		}
+		return true
+	})
+	rl := rr.Body.List
+	if len(rl) >= 4 && defers == 1 && flagWrites == 2 && swText(fset, rl[0]) == "panicking := true" &&
+		swText(fset, rl[len(rl)-2]) == "panicking = false" && swText(fset, rl[len(rl)-1]) == "return nil" {
+		if ds, ok := rl[1].(*ast.DeferStmt); ok && len(ds.Call.Args) == 0 {
+			handler, _ = ds.Call.Fun.(*ast.FuncLit)
+		}
+	}
+	var handlerIf *ast.IfStmt
+	if handler != nil && len(handler.Body.List) == 1 {
+		if is, ok := handler.Body.List[0].(*ast.IfStmt); ok && is.Init == nil && is.Else == nil && swText(fset, is.Cond) == "panicking" &&
+			len(is.Body.List) > 0 && swText(fset, is.Body.List[0]) == "msg := recover()" && strings.Count(swText(fset, is), "recover()") == 1 {
+			handlerIf = is
+		}
+	}
+	if handlerIf == nil {
+		return "", fmt.Errorf("shape not recognised: runRecoverable is not `panicking := true; defer func() { if panicking { msg := recover(); … } }(); …; panicking = false; return nil`")
+	}
+	regions = append(regions, region{name: "runRecoverable/recovered", lean: "recoverHandler", lo: handlerIf.Body.Pos(), hi: handlerIf.Body.End(), body: handlerIf.Body.List})
+
 	// OpCase re-slices by `i := len(vm.cases)`
 	if cc := clauseOf("OpCase"); !strings.Contains(swText(fset, cc), "i := len(vm.cases)") && strings.Contains(swText(fset, cc), "vm.cases[:i+1]") {
 		return "", fmt.Errorf("shape not recognised: OpCase re-slices vm.cases by an index that is not len(vm.cases)")
@@ -410,6 +460,9 @@ func genCaseBuf(repo string) (string, error) {
 		tree := c.stmts(r.body)
 		if c.err != nil {
 			return "", fmt.Errorf("%v (in %s)", c.err, r.name)
+		}
+		if r.lean == "recoverHandler" {
+			tree = []string{fmt.Sprintf(".ite (.panicking) %s []", cbList(tree))}
 		}
 		fmt.Fprintf(&b, "/-- %s -/\ndef %s : List S := %s\n\n", r.name, r.lean, cbList(tree))
 	}
